@@ -53,6 +53,10 @@ class Scope(Exception):
     """operand combination outside the modelled language"""
 
 
+class UnknownResult(Exception):
+    """the API returned an object that is none of the value kinds (e.g. an exception CLASS instead of raising)"""
+
+
 # ------------------------------------------------------------------------------------------------
 # pool of real leaves
 
@@ -357,10 +361,10 @@ def py_observe(x, P):
         return ("potv", _cflag(v.dtype), v.reshape(-1))
     if isinstance(x, np.ndarray) and x.dtype != object:
         return ("arr", _cflag(x.dtype), x.reshape(-1))
-    raise TypeError(f"result of unknown kind {type(x).__name__}")
+    raise UnknownResult(f"result of unknown kind: {x!r}"[:120])
 
 
-ERRMAP = [(Scope, "out-of-scope"), (NotImplementedError, "not-implemented"), (IndexError, "index-error"),
+ERRMAP = [(Scope, "out-of-scope"), (UnknownResult, "unknown-result"), (NotImplementedError, "not-implemented"), (IndexError, "index-error"),
           (AttributeError, "attribute-error"), (ValueError, "value-error"), (TypeError, "type-error"),
           (RuntimeError, "no-inverse")]
 
@@ -1204,6 +1208,14 @@ def oracle(ctx, budget=None):
             api_ok, exc, obs, v = False, r[3], None, None
         if spec == "err":
             counts["rejected"] += 1
+            if isinstance(exc, UnknownResult):
+                f = find_failing_node(n.e, P) or n.e
+                kinds = _kinds(f, P)
+                k = "returns-object-instead-of-raising:" + f[0] + ":" + ":".join(kinds)
+                if f[0] in ("add", "sub") and kinds[:1] == ["K"]:
+                    k = "blocked-add-notimplementederror"
+                res.counterexample(k, f"incompatible combination `{f[0]}` of {kinds} does not raise: {str(exc)[:100]}",
+                                   program=key[:400])
             if api_ok:
                 f = find_failing_node(n.e, P) or n.e
                 kinds = _kinds(f, P)
@@ -1220,6 +1232,8 @@ def oracle(ctx, budget=None):
             k = "raises:" + n.e[0] + ":" + ":".join(kinds) + ":" + type(exc).__name__
             if n.e[0] in ("add", "sub") and kinds == ["P", "P"]:
                 k = "potential-operator-sum"
+            if n.e[0] in ("mul", "matmul") and kinds == ["K", "L"]:
+                k = "blocked-projections-slice"
             res.counterexample(k, f"documented combination raises {type(exc).__name__}: {str(exc)[:100]}", program=key)
             continue
         counts["ok"] += 1
